@@ -3,6 +3,7 @@
 set -e
 cd "$(dirname "$0")/coq"
 mkdir -p extracted
+python3 -c "import sys; sys.path.insert(0, '..'); from vlib import core; core.write_coqproject()"
 coq_makefile -f _CoqProject -o Makefile.coq
 timeout 7000 make -f Makefile.coq -k -j16 2>&1 | tail -20
 cd ..
